@@ -18,6 +18,9 @@ HEADER = ("Require Import SqlV.Base SqlV.Machine SqlVGen.KeywordTable SqlVGen.Ma
 IDENTS = ["a", "b", "c", "x1"]
 KEYWORDS = ["FROM", "WHERE", "ON", "AND", "NO", "CHAIN", "WORK", "TRANSACTION", "COMMIT", "END", "GROUP", "BY",
             "HAVING", "LIMIT", "AS", "UNION"]
+# words of the block probe's header; not in the random vocabulary (CREATE and BEGIN start statements
+# outside the COMMIT/END fragment: harness/machx discards a case whose statement probe meets one)
+BLOCK_KEYWORDS = ["CREATE", "PROCEDURE", "BEGIN"]
 PUNCT = {"comma": "PComma", "semi": "PSemi", "lparen": "PLParen", "rparen": "PRParen", "lbracket": "PLBracket",
          "rbracket": "PRBracket", "lbrace": "PLBrace", "rbrace": "PRBrace", "eq": "PEq", "period": "PPeriod",
          "colon": "PColon", "mul": "PMul", "plus": "PPlus", "minus": "PMinus"}
@@ -38,7 +41,7 @@ def coq_token(t):
     if k in WS:
         return "(TWs %d)" % WS[k]
     if k == "word":
-        kw = t.get("kw") or ("NoKeyword" if t.get("q") else (t["v"].upper() if t["v"].upper() in KEYWORDS else "NoKeyword"))
+        kw = t.get("kw") or ("NoKeyword" if t.get("q") else (t["v"].upper() if t["v"].upper() in KEYWORDS + BLOCK_KEYWORDS else "NoKeyword"))
         v = cstring(t["v"])
         if t.get("q"):
             if v is not None:
@@ -116,6 +119,8 @@ def coq_prog(p):
         return "PStmts"
     if op == "word":
         return "PWord"
+    if op == "block":
+        return "PBlock"
     raise ValueError(op)
 
 
@@ -182,13 +187,13 @@ def rand_cmp_token(rng):
 def rand_prog(rng, depth, elem=False):
     """`elem`: inside a list/maybe closure (no bare prev_token there: the Rust loop could spin)."""
     leafs = ["next", "peek", "kw", "kws", "oneof", "expect_kw", "consume", "consumes", "expect_tok", "word", "word",
-             "expected", "next_ns", "peek_ns", "stmt", "fail"]
+             "expected", "next_ns", "peek_ns", "stmt", "fail", "block"]
     if not elem:
         leafs += ["prev", "prev", "stmts"]
     comb = ["seq", "if", "maybe", "maybe", "comma", "comma", "comma0", "kwsep", "paren", "nextprev"]
     op = rng.choice(leafs if depth <= 0 or rng.random() < 0.45 else comb)
     kws = lambda: rng.choice(KEYWORDS)
-    if op in ("next", "prev", "next_ns", "stmt", "stmts", "word"):
+    if op in ("next", "prev", "next_ns", "stmt", "stmts", "word", "block"):
         return [op]
     if op in ("peek", "peek_ns"):
         return [op, rng.randrange(0, 4)]
@@ -231,6 +236,120 @@ def with_locs(rng, toks):
         line = 0 if rng.random() < 0.04 else 1 + i // 5
         out.append({"tok": t, "line": line, "col": 1 + i % 5 + (0 if line else 7)})
     return out
+
+
+def _w(v, q=None):
+    return {"k": "word", "v": v, "q": q}
+
+
+def block_header(rng, name=None):
+    """CREATE PROCEDURE <name> AS BEGIN (random ASCII case of the keywords)."""
+    rc = lambda k: k if rng.random() < 0.7 else k.lower()
+    return [_w(rc("CREATE")), _w(rc("PROCEDURE")), name or _w(rng.choice(IDENTS)), _w(rc("AS")), _w(rc("BEGIN"))]
+
+
+def lay_out(rng, toks, layout):
+    """0: tokens as they are; 1: one blank between any two; 2: random whitespace tokens (also leading)."""
+    if layout == 0:
+        return list(toks)
+    out = []
+    for i, t in enumerate(toks):
+        if layout == 1:
+            if i:
+                out.append({"k": "space"})
+        else:
+            for _ in range(rng.choice([0, 1, 1, 2])):
+                out.append({"k": rng.choice(["space", "newline", "tab"])})
+        out.append(t)
+    return out
+
+
+# bodies of BEGIN .. END blocks over the COMMIT/END fragment, the closing END included where there is one
+BLOCK_BODIES = [
+    "COMMIT ; COMMIT END", "COMMIT END", "END", "COMMIT ; END END", "COMMIT", "COMMIT ;", "", "COMMIT COMMIT END",
+    "; ; END", "; COMMIT ; ; END ; COMMIT", "COMMIT END END", "COMMIT ; END", "END END", "END ; END", "END END END",
+    "COMMIT AND CHAIN END", "COMMIT WORK AND NO CHAIN ; END TRANSACTION END", "COMMIT AND END", "END AND CHAIN END ; COMMIT",
+    "COMMIT ; COMMIT ; COMMIT ; COMMIT END COMMIT", "a END", "COMMIT , END", "COMMIT ; 1 END", "COMMIT END ; COMMIT",
+    "COMMIT eof END", "COMMIT ; eof",
+    # outside the fragment (discarded by the driver): a nested procedure, BEGIN [TRANSACTION]
+    "CREATE PROCEDURE b AS BEGIN COMMIT END END", "COMMIT ; CREATE PROCEDURE b AS BEGIN COMMIT END", "COMMIT ; BEGIN END",
+]
+
+
+def body_tokens(text):
+    m = {";": {"k": "semi"}, ",": {"k": "comma"}, "eof": {"k": "eof"}, "(": {"k": "lparen"}}
+    return [m[x] if x in m else ({"k": "num", "v": x, "l": False} if x.isdigit() else _w(x)) for x in text.split()]
+
+
+BLOCK_OPS = [
+    [["block"], ["peek_ns", 0], ["stmt"], ["peek_ns", 0]],
+    [["maybe", ["block"]], ["peek_ns", 0], ["block"], ["peek_ns", 0]],
+    [["block"], ["block"], ["stmts"], ["peek_ns", 0]],
+    [["comma", ["block"]], ["peek_ns", 0], ["next"]],
+    [["if", ["maybe", ["block"]], ["stmt"], ["word"]], ["peek_ns", 0], ["block"]],
+    [["block"], ["prev"], ["peek_ns", 0], ["next"], ["expect_kw", "END"]],
+]
+
+
+def directed_block_cases(rng):
+    """The block probe (CREATE PROCEDURE x AS BEGIN <body>): every body shape x whitespace layout x
+    operation context, the depth limit cycling through 0/1/2/3/50; headers that must NOT be taken."""
+    cases = []
+    n = 0
+    for body in BLOCK_BODIES:
+        for layout in (0, 2):
+            for ops in BLOCK_OPS:
+                lim = (0, 1, 2, 3, 50)[n % 5]
+                n += 1
+                tk = lay_out(rng, block_header(rng) + body_tokens(body), layout)
+                cases.append({"toks": with_locs(rng, tk), "tc": False, "limit": lim, "ops": ops})
+    # a token in front of the header (the probe starts at the cursor, not at the start of the vector)
+    for body in BLOCK_BODIES[:8]:
+        tk = lay_out(rng, [{"k": "semi"}] + block_header(rng) + body_tokens(body), 1)
+        cases.append({"toks": with_locs(rng, tk), "tc": False, "limit": 50, "ops": [["block"], ["next"], ["block"], ["peek_ns", 0], ["stmt"]]})
+    # not the header: the probe is a no-op and leaves the cursor where it was
+    h = lambda *ws: [x if isinstance(x, dict) else _w(x) for x in ws]
+    near = [h("CREATE", "PROCEDURE", _w("a", '"'), "AS", "BEGIN"), h("CREATE", "PROCEDURE", "FROM", "AS", "BEGIN"), h("CREATE", "PROCEDURE", "a", "BEGIN"),
+            h("CREATE", "PROCEDURE", "a", {"k": "period"}, "b", "AS", "BEGIN"), h("CREATE", "PROCEDURE", "a", {"k": "lparen"}, {"k": "rparen"}, "AS", "BEGIN"),
+            h("CREATE", "PROCEDURE", "a", "AS"), h("CREATE", "PROCEDURE"), h("CREATE"), h("PROCEDURE", "a", "AS", "BEGIN"),
+            h("CREATE", "PROCEDURE", "a", "AS", "COMMIT"), h("CREATE", "PROCEDURE", "a", "AS", {"k": "eof"}, "BEGIN"), h("CREATE", "PROCEDURE", "a", "AS", _w("BEGIN", "`")),
+            h("CREATE", "a", "AS", "BEGIN"), h("COMMIT", "PROCEDURE", "a", "AS", "BEGIN"), h("CREATE", "PROCEDURE", {"k": "num", "v": "1", "l": False}, "AS", "BEGIN")]
+    for hd in near:
+        for layout in (0, 2):
+            tk = lay_out(rng, hd + body_tokens("COMMIT END"), layout)
+            cases.append({"toks": with_locs(rng, tk), "tc": False, "limit": 50, "ops": [["block"], ["peek_ns", 0], ["maybe", ["block"]], ["next"], ["block"], ["peek_ns", 0]]})
+    return cases
+
+
+def rand_block_tokens(rng):
+    """A header (now and then damaged) and a random body over the fragment's vocabulary."""
+    name = None
+    x = rng.random()
+    if x < 0.05:
+        name = _w(rng.choice(IDENTS), rng.choice(['"', "`", "["]))
+    elif x < 0.10:
+        name = _w(rng.choice(KEYWORDS))
+    hd = block_header(rng, name)
+    if rng.random() < 0.06:
+        del hd[rng.randrange(len(hd))]
+    body = []
+    for _ in range(rng.choice([0, 1, 2, 3, 4, 6, 9])):
+        y = rng.random()
+        if y < 0.40:
+            body.append(_w(rng.choice(["COMMIT", "COMMIT", "commit", "END", "END", "end"])))
+        elif y < 0.62:
+            body.append({"k": "semi"})
+        elif y < 0.80:
+            body.append(_w(rng.choice(["WORK", "TRANSACTION", "AND", "NO", "CHAIN", "AND", "CHAIN"])))
+        elif y < 0.83:
+            body.append(_w(rng.choice(["CREATE", "BEGIN", "PROCEDURE"])))
+        else:
+            body.append(rand_token(rng, 0.0))
+    if rng.random() < 0.7:
+        body.append(_w("END"))
+    body += [rand_token(rng, 0.0) for _ in range(rng.choice([0, 0, 1, 2]))]
+    lead = [rng.choice([{"k": "semi"}, _w("a"), {"k": "comma"}])] if rng.random() < 0.15 else []
+    return lay_out(rng, lead + hd + body, rng.choice([0, 1, 2, 2]))
 
 
 def directed_cases(rng):
@@ -280,7 +399,7 @@ def directed_cases(rng):
                         [["stmts"], ["peek_ns", 0], ["stmt"]],
                         [["maybe", ["stmts"]], ["peek_ns", 0], ["stmts"]]):
                 cases.append({"toks": with_locs(rng, tk), "tc": False, "limit": lim, "ops": ops})
-    return cases
+    return cases + directed_block_cases(rng)
 
 
 def random_cases(rng, n):
@@ -290,6 +409,11 @@ def random_cases(rng, n):
         ws_p = rng.choice([0.1, 0.35, 0.6])
         toks = [rand_token(rng, ws_p) for _ in range(ln)]
         ops = [rand_prog(rng, rng.choice([0, 1, 2, 3])) for _ in range(rng.randrange(2, 8))]
+        if rng.random() < 0.08:
+            # a block header in the token vector and the block probe among the operations
+            toks = rand_block_tokens(rng)
+            blk = rng.choice([["block"], ["block"], ["maybe", ["block"]], ["comma", ["block"]], ["paren", ["block"]], ["seq", ["block"], ["stmt"]]])
+            ops.insert(rng.choice([0, 0, 0, 1]) if ops else 0, blk)
         ops += [["peek_ns", 0], ["prev"], ["peek_ns", 0]]
         cases.append({"toks": with_locs(rng, toks), "tc": rng.random() < 0.5, "limit": rng.choice([0, 1, 2, 50]), "ops": ops})
     return cases
